@@ -1,6 +1,7 @@
 package main
 
 import (
+	"encoding/json"
 	"strings"
 	"fmt"
 	"strconv"
@@ -13,7 +14,7 @@ import (
 func init() {
 	register(&Check{
 		ID: "C03", Level: "exploration", QuickSecs: 170, ThoroughSecs: 1500,
-		Rule:        "AST side: all reference ASTs over every expression kind (literal, i-literal, class with range/escape/Unicode class/^/i, any, rule reference, & ! ? * +, label, action, &{} !{} #{}, throw, recovery with 1-2 labels, nested sequences and choices) up to N nodes per rule (quick 4, thorough 5), second rule with display name. Spelling side: 15 independent dimensions (4 definition operators; 13 rule separators incl. ';' on the same or a later line, comments, CRLF, EOF; 12 token separators incl. newline and comments of several shapes (/***/, /* x **/, /**/, //); leading blanks/comments; 8 separators between rule name, display name, definition operator and expression incl. none, newlines and comments; 3 literal quotings; 4 escape forms in literals and in classes; operator spacing; full parenthesisation; 8 code block bodies with nested braces, braces in string/raw string/rune literals and comments; with/without initializer). Chains: 2 and 3 recovery clauses on one expression, actions and throws inside them, a recovery inside a choice, labels on prefixed and suffixed primaries (all deviations). Lexical families: EVERY code block body of <= 3 (thorough 4) items from 28 atoms (strings, raw strings, rune literals and comments holding braces, quotes, backslashes and comment openers; identifiers, blanks, newlines) and nested groups; EVERY literal of <= 2 (3) pieces over plain runes and all escape forms in the three quotings, with and without i; EVERY class text of <= 3 (4) pieces over plain runes, - ^, escapes (incl. escaped hyphen and caret) and Unicode classes, denotation = the grammar's own tokenisation. Deviation bounded: canonical spelling for all ASTs, every single deviation for ASTs up to N-1 nodes, every pair for ASTs up to 2 nodes. Oracle: the AST dump of the real front-end (kinds, values, flags, class contents, labels, code text, AND line:col:offset of every node = position of its first token) must equal the AST the text was printed from; printing the parsed AST canonically and re-parsing yields the same AST. Non-trivial = a case with at least one spelling deviation or at least 3 nodes.",
+		Rule:        "AST side: all reference ASTs over every expression kind (literal, i-literal, class with range/escape/Unicode class/^/i, any, rule reference, & ! ? * +, label, action, &{} !{} #{}, throw, recovery with 1-2 labels, nested sequences and choices) up to N nodes per rule (quick 4, thorough 5), second rule with display name. Spelling side: 15 independent dimensions (4 definition operators; 13 rule separators incl. ';' on the same or a later line, comments, CRLF, EOF; 12 token separators incl. newline and comments of several shapes (/***/, /* x **/, /**/, //); leading blanks/comments; 8 separators between rule name, display name, definition operator and expression incl. none, newlines and comments; 3 literal quotings; 4 escape forms in literals and in classes; operator spacing; full parenthesisation; 8 code block bodies with nested braces, braces in string/raw string/rune literals and comments; with/without initializer). Chains: 2 and 3 recovery clauses on one expression, actions and throws inside them, a recovery inside a choice, labels on prefixed and suffixed primaries (all deviations). Lexical families: EVERY code block body of <= 3 (thorough 4) items from 28 atoms (strings, raw strings, rune literals and comments holding braces, quotes, backslashes and comment openers; identifiers, blanks, newlines) and nested groups; EVERY literal of <= 2 (3) pieces over plain runes and all escape forms in the three quotings, with and without i; EVERY class text of <= 3 (4) pieces over plain runes, - ^, escapes (incl. escaped hyphen and caret) and Unicode classes, denotation = the grammar's own tokenisation. Deviation bounded: canonical spelling for all ASTs, every single deviation for ASTs up to N-1 nodes, every pair for ASTs up to 2 nodes. Oracle: the AST dump of the real front-end (kinds, values, flags, class contents, labels, code text, AND line:col:offset of every node = position of its first token) must equal the AST the text was printed from; printing the parsed AST canonically and re-parsing yields the same AST. Non-trivial = a case with at least one spelling deviation or at least 3 nodes. Plus front-end histories: every text of an alphabet of 4 valid and 11 invalid grammars (unclosed groups up to 6 deep, unterminated block / string / class, bad escape) parsed first, then the whole alphabet in the same process: every answer equals the answer of a fresh process.",
 		Assumptions: []string{"hook ast mode = ParseReader of the working tree", "position convention of C02 (line counts newlines, col counts runes since the last newline)"},
 		Run:         runC03,
 	})
@@ -201,7 +202,73 @@ func deviations() []deviation {
 	return d
 }
 
+// frontEndHistories: the front-end is a function of the text alone. Every text of an alphabet of
+// valid and INVALID grammars (unclosed groups 1..6 deep, unterminated code block / string / class,
+// a bad escape, a stray operator) is parsed first in a process, then every text of the alphabet is
+// parsed in that same process: each answer (AST dump with positions, or the error text) must be the
+// answer a fresh process gives.
+func frontEndHistories(c *ShardCtx) {
+	texts := []string{
+		"A <- 'a' (B / 'c')*\nB <- ('b' ('d' / 'e'))+\n",
+		"A <- ((((((('a')))))))\n",
+		"A \"the a\" <- x:('a' 'b') { return x, nil }\n",
+		"A <- [a-c] 'x'i . !. &'a' %{l} //{l} 'r'\n",
+		"A <- ('a'\n", "A <- (('a'\n", "A <- (((((('a'\n", "A <- ('a' / ('b' / ('c' / ('d' / ('e' / ('f'\n",
+		"A <- 'a' { return nil, nil \n", "A <- \"abc\n", "A <- [abc\n", "A <- '\\q'\n", "A <- * 'a'\n", "A <- 'a' %{\n", "",
+	}
+	bin := core.HookBin()
+	key := func(r *hook.Resp) string {
+		if r.Err != "" {
+			return "ERR " + r.Err
+		}
+		b, _ := json.Marshal(r.AST)
+		return string(b)
+	}
+	call := func(s *hook.Server, t string) string {
+		r, err := s.Call(&hook.Req{Mode: "ast", Text: []byte(t)})
+		if err != nil {
+			panic(&core.HarnessError{Msg: err.Error()})
+		}
+		return key(r)
+	}
+	alone := make([]string, len(texts))
+	for i, t := range texts {
+		s, err := hook.Start(bin)
+		if err != nil {
+			panic(&core.HarnessError{Msg: err.Error()})
+		}
+		alone[i] = call(s, t)
+		s.Close()
+	}
+	for i := range texts {
+		s, err := hook.Start(bin)
+		if err != nil {
+			panic(&core.HarnessError{Msg: err.Error()})
+		}
+		call(s, texts[i])
+		for j := range texts {
+			got := call(s, texts[j])
+			c.Res.Evaluations++
+			c.Res.Counters["front_end_history_calls"]++
+			if got != alone[j] {
+				c.Report(Violation{Desc: fmt.Sprintf("the front-end answers differently after other texts were parsed in the process (first %q, then the alphabet up to this text): got %s, a fresh process gives %s", texts[i], short(got, 200), short(alone[j], 200)), Grammar: texts[j]}, "")
+			}
+		}
+		s.Close()
+	}
+}
+
+func short(s string, n int) string {
+	if len(s) > n {
+		return s[:n] + "..."
+	}
+	return s
+}
+
 func runC03(c *ShardCtx) {
+	if c.Shard == 0 {
+		frontEndHistories(c)
+	}
 	n := 4
 	if c.Thorough() {
 		n = 5
